@@ -119,7 +119,7 @@ class C01(Cfg):
         return res
 
     def nontrivial(self, ops, outs):
-        return any(o.startswith("ok N[") and "N[]" not in o for o in outs)
+        return any(o.startswith("ok N[") and not o.startswith("ok N[]") for o in outs)
 
     # ------------------------------------------------------------------ oracle
     def oracle(self, ops, outs):
